@@ -154,3 +154,41 @@ def run(facts):
     r.floor_what = "adaptor trait methods"
     r.notes.append("adaptor trait methods classified: %d" % nimpl)
     return r
+
+
+MULTIGRAPH_TYPES = ("adt:graph_impl::Graph", "adt:graph_impl::stable_graph::StableGraph", "adt:adj::List")
+
+
+def build_overrides(facts):
+    """Build::add_edge has a default body (= update_edge) that merges parallel edges: multigraph types must override it"""
+    r = RuleResult("DELEG-BUILD", "types that keep parallel edges (Graph, StableGraph, adj::List) override Build::add_edge with their own add_edge: the "
+                                  "trait's default body is update_edge, which overwrites an existing a->b edge instead of adding a second one")
+    t = facts.traits.get("data::Build")
+    if not t or not any(m["name"] == "add_edge" for m in t["methods"]):
+        r.bad(Violation("DELEG-BUILD", "data::Build", "anchor-missing", "src/data.rs", 0, "trait data::Build / add_edge not found - fail closed"))
+        return r
+    default = next(m for m in t["methods"] if m["name"] == "add_edge")["default"]
+    for sh in MULTIGRAPH_TYPES:
+        impls = [i for i in facts.impls if i["trait"] == "data::Build" and i["selfhead"] == sh]
+        fn = "impl data::Build for %s" % sh[4:]
+        if not impls:
+            r.ok(fn, "add_edge", "no Build impl for this type in this configuration")
+            continue
+        bodies = [b for b in facts.bodies if b.kind == "AssocFn" and b.impl_trait == "data::Build" and b.impl_selfhead == sh and b.name == "add_edge"]
+        if not bodies:
+            if default:
+                r.bad(Violation("DELEG-BUILD", fn, "add_edge", impls[0]["file"], impls[0]["line"],
+                                "%s inherits Build::add_edge's default body (update_edge): adding a parallel edge through the Build trait "
+                                "(generic code, from_elements) overwrites the existing edge instead" % sh[4:]))
+            else:
+                r.ok(fn, "add_edge", "trait has no default body")
+            continue
+        b = bodies[0]
+        callees = [last_seg(callee_name(t_["f"])) for _, t_ in b.calls()]
+        if any(c in ("add_edge", "try_add_edge") for c in callees) and "update_edge" not in callees:
+            r.ok(fn, "add_edge", "overridden, forwards to the type's own add_edge")
+        else:
+            r.bad(Violation("DELEG-BUILD", fn, "add_edge", b.file, b.line,
+                            "Build::add_edge of a multigraph type does not forward to its own add_edge (calls: %s)" % callees))
+    r.floor = 2
+    return r
